@@ -959,7 +959,21 @@ func c08Step(c *Ctx) {
 			continue
 		}
 		n++
-		strideLeaves := leaves(base(ci.Common().Args[0]))
+		// the stride the events are attached to: the base of the receiver `stride.Events`, also when a helper is
+		// handed the stride's Events (`s.execAction(ctx, n, bs, props, stride.Events)`: the receiver is then a
+		// parameter whose argument is that field of the stride)
+		strideLeaves := map[ssa.Value]bool{}
+		var toStride func(v ssa.Value, depth int)
+		toStride = func(v ssa.Value, depth int) {
+			for d := range leaves(base(v)) {
+				if b2 := base(d); b2 != d && depth < 4 {
+					toStride(b2, depth+1)
+					continue
+				}
+				strideLeaves[d] = true
+			}
+		}
+		toStride(ci.Common().Args[0], 0)
 		after := flow.ReachableFrom(site.Block(), nil)
 		after[site.Block()] = true
 		ri := 0
@@ -1061,7 +1075,8 @@ func c08Step(c *Ctx) {
 			wscope = append(wscope, f)
 		}
 	}
-	for _, d := range deepDefs(recArg, wscope) {
+	// (or a record private to the iteration whose field holds it: `attempt.ensureStride(); stride = attempt.stride`)
+	for _, d := range deepDefsCells(recArg, wscope) {
 		if ex, isEx := d.(*ssa.Extract); isEx && ex.Tuple == ssa.Value(stepCall) && ex.Index == 0 {
 			ok = true
 		}
